@@ -141,8 +141,11 @@ def run_fresh_key(ctx):
         if not ctor_blocks:
             ctx.ok("siblings", key, "the key source is not a locally built map (%s)" % sorted(o.call_names())[:3], nontrivial=False)
             continue
-        if all(b.in_loop(bb) for bb in ctor_blocks):
-            ctx.ok("siblings", key, "the fields map is created per event inside the batch loop", site=t["sp"])
+        # a map created once but emptied at the start of every iteration is per-event as well
+        root = b.desc(t["args"][1])
+        clears = [cb for cb, ct in b.calls() if ct["callee"].rsplit("::", 1)[-1] == "clear" and ct["args"] and b.desc(ct["args"][0]) == root and b.in_loop(cb) and b.dominates(cb, c["bb"])]
+        if all(b.in_loop(bb) for bb in ctor_blocks) or clears:
+            ctx.ok("siblings", key, "the fields map is created (or cleared) per event inside the batch loop", site=t["sp"])
         else:
             ctx.violation("siblings", key, "%s builds the fields map it hands to select_replica once, outside the loop over the batch, and fills it per event: fields of earlier events persist, so an event without the partition key is routed by a predecessor's key — batch routing disagrees with single injection" % fn, site=t["sp"])
     ctx.floor("siblings", "select_replica calls inside a batch loop", n, 1)
